@@ -381,6 +381,10 @@ func init() {
 		for _, m := range []string{"plain", "aes-256-gcm"} {
 			jobs = append(jobs, vx.Job{Scenario: "dgram.sizes", Params: vx.P("method", m, "step", fmt.Sprint(b(37, 1)), "via", "readfrom"), Weight: 3})
 		}
+		// bursts: several datagrams pending on the server's stream at once, even and odd session ids, the admin UID as a proxy user
+		jobs = append(jobs, vx.Job{Scenario: "udp.route", Params: vx.P("burst", "1", "sidlow", "1"), Weight: 4},
+			vx.Job{Scenario: "udp.route", Params: vx.P("burst", "1", "sidlow", "2"), Weight: 4},
+			vx.Job{Scenario: "udp.route", Params: vx.P("burst", "1", "admin", "1"), Weight: 4})
 		// answers of the datagram service at the largest size ck-client's 8192-byte socket buffer lets through
 		jobs = append(jobs, vx.Job{Scenario: "udp.route", Params: vx.P("anslens", "8000,8187,8188"), Weight: 5})
 		for i := range jobs {
